@@ -160,4 +160,88 @@ theorem tie_ping :
   refine ⟨by decide, by decide, ?_⟩
   intro v; simp [pingResult]
 
+/-! ### round 5: the delegating entry points, semantically -/
+
+/-- value of a forwarded argument -/
+inductive FVal where
+  | bg                  -- `context.Background()`
+  | wall                -- `time.Now()`
+  | lit (v : Nat)       -- an integer literal in the source
+  | val (v : Nat)       -- the caller's value of a parameter (a time in ns, a size, a key …)
+  | ctx (k : CtxKind)   -- the caller's context
+  deriving DecidableEq
+
+/-- an unsigned decimal literal -/
+def litNat (a : String) : Option Nat :=
+  if a.toList ≠ [] ∧ a.toList.all Char.isDigit then some (a.toList.foldl (fun acc c => acc * 10 + (c.toNat - 48)) 0) else none
+
+/-- an argument expression of the source under the caller's actual parameter values -/
+def evalFwd (params : List String) (actuals : List FVal) (a : String) : Option FVal :=
+  if a = "context.Background()" then some .bg
+  else if a = "time.Now()" then some .wall
+  else match litNat a with
+    | some v => some (.lit v)
+    | none => (params.zip actuals).lookup a
+
+def evalFwds (params : List String) (actuals : List FVal) (args : List String) : Option (List FVal) :=
+  args.mapM (evalFwd params actuals)
+
+/-- the argument list that reaches `reserveN(ctx, now, n)`; `w` = what `time.Now()` reads -/
+def fwdReserve (w : Nat) : List FVal → Option ReserveArgs
+  | [c, t, n] =>
+    match (match c with | .bg => some CtxKind.background | .ctx k => some k | _ => none),
+          (match t with | .wall => some w | .val v => some v | _ => none),
+          (match n with | .lit v => some v | .val v => some v | _ => none) with
+    | some c, some t, some n => some ⟨c, t, n⟩
+    | _, _, _ => none
+  | _ => none
+
+/-- **What reaches `reserveN` through each public entry point, for all actual arguments** — the extracted argument
+lists composed along the call chain are the model's `allowArgs` / `allowCtxArgs` / `allowNArgs` / `allowNCtxArgs`
+(a dropped `n`, a dropped context, a literal other than 1, a stale clock instead of `time.Now()` break this), and
+`Take(key)` is `TakeCtx(context.Background(), key)`. -/
+theorem tie_entry_points_sem (w ns n key : Nat) (k : CtxKind) :
+    ((evalFwds allowNFwdParams [.val ns, .val n] allowNFwdArgs).bind (fwdReserve w) = some (allowNArgs ns n)) ∧
+    ((evalFwds allowNCtxFwdParams [.ctx k, .val ns, .val n] allowNCtxFwdArgs).bind (fwdReserve w) = some (allowNCtxArgs k ns n)) ∧
+    (((evalFwds allowFwdParams [] allowFwdArgs).bind fun a => evalFwds allowNFwdParams a allowNFwdArgs).bind (fwdReserve w)
+      = some (allowArgs w)) ∧
+    (((evalFwds allowCtxFwdParams [.ctx k] allowCtxFwdArgs).bind fun a => evalFwds allowNCtxFwdParams a allowNCtxFwdArgs).bind (fwdReserve w)
+      = some (allowCtxArgs k w)) ∧
+    (evalFwds takeFwdParams [.val key] takeFwdArgs = some [.bg, .val key]) := by
+  have h1 : litNat "now" = none := by decide
+  have h2 : litNat "n" = none := by decide
+  have h3 : litNat "ctx" = none := by decide
+  have h4 : litNat "key" = none := by decide
+  have h5 : litNat "1" = some 1 := by decide
+  refine ⟨?_, ?_, ?_, ?_, ?_⟩ <;>
+    simp [h1, h2, h3, h4, h5, evalFwds, evalFwd, fwdReserve, allowNFwdParams, allowNFwdArgs, allowNCtxFwdParams, allowNCtxFwdArgs,
+      allowFwdParams, allowFwdArgs, allowCtxFwdParams, allowCtxFwdArgs, takeFwdParams, takeFwdArgs,
+      allowNArgs, allowNCtxArgs, allowArgs, allowCtxArgs, List.lookup, List.zip]
+
+/-! ### round 5: NewTokenLimiter, semantically -/
+
+/-- `fmt.Sprintf(format, key)` for a format with `%s` verbs only -/
+def sprintfL : List Char → List Char → List Char
+  | '%' :: 's' :: rest, key => key ++ sprintfL rest key
+  | c :: rest, key => c :: sprintfL rest key
+  | [], _ => []
+
+def sprintfS (format key : String) : String := String.ofList (sprintfL format.toList key.toList)
+
+/-- **The constructor's arithmetic and key derivation for all arguments**: the interval of the rescue limiter is
+`TCfg.ival` (`time.Second/time.Duration(rate)`, truncating), its size is `burst` (not `rate`), and the two Redis keys are
+the model's `newTokenCfg` keys for EVERY caller key (`fmt.Sprintf` of the two extracted formats). -/
+theorem tie_newTokenLimiter_sem (rate burst : Nat) (key : String) :
+    rescueEveryNs rate burst = ((newTokenCfg rate burst key).ival : Int) ∧
+    rescueBurst rate burst = (burst : Int) ∧
+    sprintfS tokenFormat key = (newTokenCfg rate burst key).k1 ∧
+    sprintfS timestampFormat key = (newTokenCfg rate burst key).k2 := by
+  have h1 : tokenFormat.toList = ['{', '%', 's', '}', '.', 't', 'o', 'k', 'e', 'n', 's'] := by decide
+  have h2 : timestampFormat.toList = ['{', '%', 's', '}', '.', 't', 's'] := by decide
+  refine ⟨?_, rfl, ?_, ?_⟩
+  · show Int.tdiv 1000000000 (rate : Int) = ((1000000000 / rate : Nat) : Int)
+    rw [Int.tdiv_eq_ediv_of_nonneg (by decide)]; rfl
+  · apply String.ext; simp [sprintfS, h1, sprintfL, newTokenCfg]
+  · apply String.ext; simp [sprintfS, h2, sprintfL, newTokenCfg]
+
 end GoZero.C03.TieSem
